@@ -16,10 +16,7 @@ Proof. destruct k; reflexivity. Qed.
 
 Lemma nth_coins_add k : forall a b, nth k (coins_add a b) 0 = nth k a 0 + nth k b 0.
 Proof.
-  induction k as [|k IH]; intros [|x a] [|y b]; simpl; try lia.
-  - rewrite nth_nil. lia.
-  - rewrite nth_nil. lia.
-  - apply IH.
+  induction k as [|k IH]; intros [|x a] [|y b]; simpl; try lia. apply IH.
 Qed.
 
 Lemma nth_map_opp k l : nth k (map Z.opp l) 0 = - nth k l 0.
@@ -28,23 +25,22 @@ Proof. change 0 with (Z.opp 0) at 1. apply map_nth. Qed.
 Lemma nth_coins_sub k : forall a b, nth k (coins_sub a b) 0 = nth k a 0 - nth k b 0.
 Proof.
   induction k as [|k IH]; intros [|x a] [|y b]; simpl; try lia.
-  - pose proof (nth_map_opp k b). simpl in H. rewrite H, nth_nil. lia.
-  - rewrite nth_nil. lia.
+  - rewrite nth_map_opp. lia.
   - apply IH.
 Qed.
 
 Lemma coins_le_iff : forall a b, coins_le a b = true <-> forall k, nth k a 0 <= nth k b 0.
 Proof.
   induction a as [|x a IH]; intros b.
-  - simpl. rewrite forallb_forall. split.
+  - cbn [coins_le]. rewrite forallb_forall. split.
     + intros H k. rewrite nth_nil. destruct (nth_in_or_default k b 0) as [Hin|Hd]; [apply Z.leb_le; apply H; exact Hin | rewrite Hd; lia].
     + intros H y Hy. apply Z.leb_le. destruct (In_nth b y 0 Hy) as [k [_ Hk]]. specialize (H k). rewrite nth_nil, Hk in H. exact H.
   - destruct b as [|y b].
-    + simpl. rewrite forallb_forall. split.
+    + cbn [coins_le]. rewrite forallb_forall. split.
       * intros H k. rewrite nth_nil.
         destruct (nth_in_or_default k (x :: a) 0) as [Hin|Hd]; [apply Z.leb_le; apply H; exact Hin | rewrite Hd; lia].
       * intros H z Hz. apply Z.leb_le. destruct (In_nth (x :: a) z 0 Hz) as [k [_ Hk]]. specialize (H k). rewrite nth_nil, Hk in H. exact H.
-    + simpl. rewrite andb_true_iff, Z.leb_le, IH. split.
+    + cbn [coins_le]. rewrite andb_true_iff, Z.leb_le, IH. split.
       * intros [H1 H2] [|k]; simpl; [exact H1 | apply H2].
       * intro H. split; [apply (H 0%nat) | intro k; apply (H (S k))].
 Qed.
@@ -176,7 +172,9 @@ Qed.
 
 (** AllocateRewards: per-period coins * periods never exceeds what moved into the module *)
 Lemma nth_per_period k coins n : nth k (per_period coins n) 0 = Z.quot (nth k coins 0) n.
-Proof. unfold per_period. replace 0 with (Z.quot 0 n) at 1 by apply Z.quot_0_l_ext. apply map_nth.
+Proof.
+  unfold per_period. replace 0 with (Z.quot 0 n) at 1 by (destruct n; reflexivity).
+  apply (map_nth (fun a => Z.quot a n)).
 Qed.
 
 Lemma alloc_covers k coins n : 1 <= n -> (forall j, 0 <= nth j coins 0) -> 0 <= nth k (per_period coins n) 0 /\ n * nth k (per_period coins n) 0 <= nth k coins 0.
